@@ -43,59 +43,61 @@ theorem isInput_true_owned {V : Type} {r : Run V} {x : Nat} (h : r.isInput x = t
   exact h
 
 /-- **Preservation.** -/
-theorem Sim.step {V : Type} {ops : Ops V} {r : Run V} {st st' : St V} {i : Nat} {tr : StepTrace}
+theorem Sim.step' {V : Type} {ops : Ops V} {r : Run V} {st st' : St V} {i : Nat} {tr : StepTrace}
     {total : Nat → Nat} {rest outs : List Nat} {E : Nat → Option V} (hwf : WF r)
-    (h : step ops r st i = .ok (st', tr)) (P : StepParts ops r st st' i tr)
-    (hs : Sim r total (i :: rest) outs st E) :
-    Sim r total rest outs st' (naiveStore E P.op.outputs P.outs) := by
-  have T := takeFacts P hs.nocaps
+    (h : step ops r st i = .ok (st', tr)) (hs : Sim r total (i :: rest) outs st E)
+    {op : OpNode} {taken : List (Nat × V)} {st2 : St V} {byVal : List (Nat × V)} {vs : List V}
+    {temps3 : Nat → Option V} {stored released : List Nat}
+    (hop : getOp r.g i = some op) (T : TakeFacts ops r st i op taken st2 byVal)
+    (hstore : storeOutputs r st2.temps op.outputs vs = (temps3, stored))
+    (hrel : releaseLoop r { st2 with temps := temps3 } (opDeps r.g op) = (st', released)) :
+    Sim r total rest outs st' (naiveStore E op.outputs vs) := by
   have hrc' : RcInv r.g total rest outs st'.rc := RcInv.step h hs.rcb hs.rc
-  have hb2 : RcBounded P.st2.rc := by rw [T.rc]; exact hs.rcb
-  have hrel := P.hrel
-  have hst' : (releaseLoop r { P.st2 with temps := P.temps3 } (opDeps r.g P.op)).1 = st' := by
+  have hb2 : RcBounded st2.rc := by rw [T.rc]; exact hs.rcb
+  have hst' : (releaseLoop r { st2 with temps := temps3 } (opDeps r.g op)).1 = st' := by
     rw [hrel]
-  have F2 : ∀ x, st'.temps x = P.temps3 x ∨ (st'.temps x = none ∧ st'.rc x = 0) := by
+  have F2 : ∀ x, st'.temps x = temps3 x ∨ (st'.temps x = none ∧ st'.rc x = 0) := by
     intro x
-    have := releaseLoop_temps r { P.st2 with temps := P.temps3 } (opDeps r.g P.op) x hb2
+    have := releaseLoop_temps r { st2 with temps := temps3 } (opDeps r.g op) x hb2
     rw [hst'] at this
     rcases this with h | h
     · left; exact h
     · right; exact ⟨h.1, h.2.1⟩
-  have F3 : ∀ x, P.temps3 x =
-      if r.isInput x = true then P.st2.temps x else naiveStore P.st2.temps P.op.outputs P.outs x := by
+  have F3 : ∀ x, temps3 x =
+      if r.isInput x = true then st2.temps x else naiveStore st2.temps op.outputs vs x := by
     intro x
-    have := storeOutputs_apply r hwf.fixed P.st2.temps P.op.outputs P.outs x
-    rw [P.hstore] at this
+    have := storeOutputs_apply r hwf.fixed st2.temps op.outputs vs x
+    rw [hstore] at this
     exact this
   -- values with a use that the naive evaluation knows survive the take phase
   have S : ∀ x, isValue r.g x = true → r.borrowed x = none → 0 < uses r.g rest outs x →
-      val r E x ≠ none → P.st2.temps x ≠ none := by
+      val r E x ≠ none → st2.temps x ≠ none := by
     intro x hv hb hu hval
     have hu' : 0 < uses r.g (i :: rest) outs x := by
-      rw [uses_cons P.hop rest outs x hv]; omega
+      rw [uses_cons hop rest outs x hv]; omega
     have hl := hs.live x hv hb hu' hval
     rcases T.htemps x with h | ⟨_, hr1, hmem, _⟩
     · rw [h]; exact hl
     · exfalso
       obtain ⟨h1, _⟩ := hs.rc x hv
-      rw [hr1, uses_cons P.hop rest outs x hv] at h1
+      rw [hr1, uses_cons hop rest outs x hv] at h1
       have := List.count_pos_iff.mpr hmem
       split at h1 <;> omega
   refine ⟨step_rcBounded ops r st st' i tr h hs.rcb, hrc', ?_, ?_, ?_⟩
   · intro v
-    have := releaseLoop_caps r { P.st2 with temps := P.temps3 } (opDeps r.g P.op)
+    have := releaseLoop_caps r { st2 with temps := temps3 } (opDeps r.g op)
     rw [hst'] at this
     rw [this]
-    show P.st2.caps v = none
+    show st2.caps v = none
     rw [T.caps]; exact hs.nocaps v
   · -- agree
     intro x y hx
-    have h3 : P.temps3 x = some y := by
+    have h3 : temps3 x = some y := by
       rcases F2 x with h | h
       · rw [← h]; exact hx
       · rw [h.1] at hx; simp at hx
     rw [F3 x] at h3
-    have back : P.st2.temps x = some y → st.temps x = some y := by
+    have back : st2.temps x = some y → st.temps x = some y := by
       intro h2
       rcases T.htemps x with h | h
       · rw [← h]; exact h2
@@ -111,13 +113,13 @@ theorem Sim.step {V : Type} {ops : Ops V} {r : Run V} {st st' : St V} {i : Nat} 
       simp only [hin', Bool.false_eq_true, if_false] at h3
       obtain ⟨hb, ho⟩ := isInput_false hin'
       rw [naiveStore_apply] at h3
-      cases hw : naiveStore (fun _ => none) P.op.outputs P.outs x with
+      cases hw : naiveStore (fun _ => none) op.outputs vs x with
       | some w =>
         rw [hw] at h3
         simp only [Option.some.injEq] at h3
         subst h3
         have hv : isValue r.g x = true :=
-          hwf.outsValue i P.op P.hop x (naiveStore_none_mem _ _ _ _ hw)
+          hwf.outsValue i op hop x (naiveStore_none_mem _ _ _ _ hw)
         refine ⟨hv, hb, ?_⟩
         rw [val_value hv hb, ho]
         simp only
@@ -145,7 +147,7 @@ theorem Sim.step {V : Type} {ops : Ops V} {r : Run V} {st st' : St V} {i : Nat} 
         simp only [hin', Bool.false_eq_true, if_false]
         obtain ⟨_, ho⟩ := isInput_false hin'
         rw [naiveStore_apply]
-        cases hw : naiveStore (fun _ => none) P.op.outputs P.outs x with
+        cases hw : naiveStore (fun _ => none) op.outputs vs x with
         | some w => simp
         | none =>
           simp only
@@ -158,5 +160,12 @@ theorem Sim.step {V : Type} {ops : Ops V} {r : Run V} {st st' : St V} {i : Nat} 
       obtain ⟨h1, _⟩ := hrc' x hv
       rw [h0] at h1
       split at h1 <;> omega
+
+theorem Sim.step {V : Type} {ops : Ops V} {r : Run V} {st st' : St V} {i : Nat} {tr : StepTrace}
+    {total : Nat → Nat} {rest outs : List Nat} {E : Nat → Option V} (hwf : WF r)
+    (h : step ops r st i = .ok (st', tr)) (P : StepParts ops r st st' i tr)
+    (hs : Sim r total (i :: rest) outs st E) :
+    Sim r total rest outs st' (naiveStore E P.op.outputs P.outs) :=
+  Sim.step' hwf h hs P.hop (takeFacts P hs.nocaps) P.hstore P.hrel
 
 end RtenVerif.Executor
